@@ -1409,10 +1409,29 @@ class Exec:
             self.used_assumptions.add("forwarded **kwargs is empty where the callee accepts no **kwargs")
         return env, None
 
+    def escape_check(self, info: FuncInfo, pos: List[Any], kws: Dict[str, Any], st: State) -> None:
+        """C07 / F2: a value stored into a Props registry (and so into a schema) must not be a mutable
+        container owned by the caller -- otherwise a later mutation of it changes the schema."""
+        if info.qualname not in ("Props.update", "Props.set"):
+            return
+        stored = list(kws.items()) if info.qualname == "Props.update" else [("value", pos[1])] if len(pos) > 1 else []
+        for name, v in stored:
+            if not isinstance(v, T):
+                continue            # a cell: allocated in this activation (fresh)
+            if v.z.get_id() in getattr(self, "fresh_terms", set()):
+                continue
+            z = v.z
+            mutable = z3.Or(*[M.isinstance_f(self.ct, z, k) for k in ("list", "dict", "set", "bytearray")])
+            self.escape_ctr = getattr(self, "escape_ctr", 0) + 1
+            self.oblige(st, f"{self.fname.split(':')[-1]}:escape[{name}]#{self.escape_ctr}", "escape", z3.Not(mutable),
+                        ("C07",), text=f"the object stored as prop `{name}` is not a mutable container owned by the caller",
+                        where=self.where())
+
     def inline(self, info: FuncInfo, bound: Any, pos: List[Any], kws: Dict[str, Any],
                kwrest: Optional[Kw], st: State, via_cls: Optional[str] = None) -> List[Tuple[State, Any]]:
         if self.call_depth > 12:
             raise Unsupported(f"inline depth exceeded at {info.qualname}")
+        self.escape_check(info, pos, kws, st)
         env, err = self.bind_params(info, bound, pos, kws, kwrest, st)
         if err is not None:
             return [(st, err)]
